@@ -167,7 +167,8 @@ class ModelServer:
             return b"", ("shutdown",), True
         if v == b"config":
             if self.cluster is None:
-                return b"ERROR\r\n", ("error", "no cluster config"), False
+                # (hangs_up_after_error: a proxy / serverless endpoint that drops the connection after ERROR)
+                return b"ERROR\r\n", ("error", "no cluster config"), bool(getattr(self, "hangs_up_after_error", False))
             ver, nodes = self.cluster
             body = str(ver).encode() + b"\n" + b" ".join(
                 f"{h}|{ip}|{p}".encode() for h, ip, p in nodes) + b"\n"
